@@ -216,7 +216,7 @@ impl RCase {
             "serial": self.scenarios.iter().filter(|s| s.serial).map(|s| s.name.clone()).collect::<Vec<_>>(),
             "custom_classifier": self.custom_classifier,
             "plan": plan,
-            "world_new_plan": self.wn_plan.iter().map(|(o, g)| format!("{}{}", match o { WnOc::Ok => "ok", WnOc::Err => "err", WnOc::Panic => "panic" }, if *g > 0 { format!("g{g}") } else { String::new() })).collect::<Vec<_>>().join(","),
+            "world_new_plan": self.wn_plan.iter().map(|(o, g)| format!("{}{}", match o { WnOc::Ok => "ok", WnOc::Err => "err", WnOc::Panic => "panic", WnOc::PanicEager => "panic-eager" }, if *g > 0 { format!("g{g}") } else { String::new() })).collect::<Vec<_>>().join(","),
         })
     }
 }
@@ -498,7 +498,7 @@ pub fn gen_case(t: &mut Tape, p: &Profile) -> RCase {
 
     let wn_plan: Vec<(WnOc, u8)> = (0..40)
         .map(|_| {
-            let oc = if pct(t, p.p_fail_world) { [WnOc::Err, WnOc::Panic][t.pick(2)] } else { WnOc::Ok };
+            let oc = if pct(t, p.p_fail_world) { [WnOc::Err, WnOc::Panic, WnOc::PanicEager][t.pick(3)] } else { WnOc::Ok };
             (oc, if pct(t, 15) { 1 } else { 0 })
         })
         .collect();
